@@ -176,11 +176,30 @@ def r02_2(prog, rep):
         kw = dict(r[3])
         det = "bytes" if bytes_guard == [True] else "json"
         m, u = kw.get("marshal"), kw.get("unmarshal")
-        okm = m is not None and m[0] == "boolop" and m[1] == "or" and m[2][0] == ("param", "marshaller") and T.is_call_to(m[2][1], "typelib.marshals.api.marshaller") and (_arg(m[2][1], 0, "t") == t)
-        oku = u is not None and u[0] == "boolop" and u[1] == "or" and u[2][0] == ("param", "unmarshaller") and T.is_call_to(u[2][1], "typelib.unmarshals.api.unmarshaller") and (_arg(u[2][1], 0, "t") == t)
+        def supplied_or(term, pname, is_default):
+            """`param or default`, as one expression (also `param if param else default`) or decided on the path
+            (`x = param` / `if not x: x = default`)."""
+            prm = ("param", pname)
+            if term is None:
+                return False
+            if term[0] == "boolop" and term[1] == "or" and len(term[2]) == 2 and term[2][0] == prm and is_default(term[2][1]):
+                return True
+            if term[0] == "ifexp" and term[1] == prm and term[2] == prm and is_default(term[3]):
+                return True
+            if term[0] == "ifexp" and term[1] == ("not", prm) and term[3] == prm and is_default(term[2]):
+                return True
+            truth = [pol for g, pol in p.guards() if g == prm]
+            if term == prm and truth and all(truth):
+                return True
+            if is_default(term) and truth and not any(truth):
+                return True
+            return False
+
+        okm = supplied_or(m, "marshaller", lambda y: T.is_call_to(y, "typelib.marshals.api.marshaller") and _arg(y, 0, "t") == t)
+        oku = supplied_or(u, "unmarshaller", lambda y: T.is_call_to(y, "typelib.unmarshals.api.unmarshaller") and _arg(y, 0, "t") == t)
         rep.check(okm and oku, "R02.2", f.qualname, f.loc, f"[{det}] marshal/unmarshal <- the supplied routine or the one generated for t", f"[{det}] marshal=/unmarshal= are not `supplied or generated-for-t` in their own direction", detail=f"{det}-routines")
         cls_t = r[1]
-        okc = cls_t[0] == "boolop" and cls_t[1] == "or" and cls_t[2][0] == ("param", "codec_cls") and cls_t[2][1] == ("ref", "typelib.codecs.Codec")
+        okc = supplied_or(cls_t, "codec_cls", lambda y: y == ("ref", "typelib.codecs.Codec"))
         rep.check(okc, "R02.2", f.qualname, f.loc, f"[{det}] class <- codec_cls or Codec", f"[{det}] the constructed class is not `codec_cls or Codec`", detail=f"{det}-class")
         e, d = kw.get("encoder"), kw.get("decoder")
         ident = lambda x: x is not None and x[0] == "lambda" and len(x[1]) == 1 and x[2] == ("param", x[1][0])  # noqa: E731
@@ -217,12 +236,17 @@ def r02_2(prog, rep):
         repeated = False
         for pth in P.paths_of(prog, home):
             inside = False
+            tested = False
             for e in pth.events:
-                if e[0] == "while" and e[2] == 1 and T.contains(e[1], lambda y: T.is_call_to(y, "builtins.isinstance")):
+                if e[0] == "while" and e[2] == 1:
+                    # (the reference test is the loop's header, or -- `while True:` -- a test inside it whose failure leaves the loop)
                     inside = True
+                    tested = T.contains(e[1], lambda y: T.is_call_to(y, "builtins.isinstance"))
                 elif e[0] == "whileend":
                     inside = False
-                elif inside and any(isinstance(y, tuple) and y and isinstance(y[0], str) and T.contains(y, is_eval) for y in e[1:]):
+                elif inside and e[0] == "guard" and T.contains(e[1], lambda y: T.is_call_to(y, "builtins.isinstance")):
+                    tested = True
+                elif inside and tested and any(isinstance(y, tuple) and y and isinstance(y[0], str) and T.contains(y, is_eval) for y in e[1:]):
                     repeated = True
             if any(T.contains(tm, lambda y: T.is_call_to(y, home.qualname) and any(T.contains(a, is_eval) for a in y[2])) for tm in pth.all_terms()):
                 repeated = True
